@@ -20,6 +20,10 @@ def steps(cfg, trace):
     for i, line in enumerate(trace):
         op, out, state = C.split_line(line)
         toks = op.split()
+        if toks and toks[0] == "TD" and not out.startswith("ERR"):
+            # iterator created, clock advanced by d, then drained: every entry is judged when it is visited
+            now += int(toks[1])
+            toks = ["T"]
         yield i, toks, out, state, now
         if toks and toks[0] == "D" and not out.startswith("ERR"):
             now += int(toks[1])
